@@ -68,10 +68,28 @@ Apply1(s, m) ==
 \* concrete level (bad decimal, bad address, over-long string...): it must fail
 WellFormed(m) == IF "wf" \in DOMAIN m THEN m.wf ELSE TRUE
 
+\* Stateless validation compares address STRINGS (msg.ValidateBasic): "a1" and its
+\* upper-case spelling "A1" are different strings of the same account
+RawOK(m) ==
+  CASE m.type = "Send"                                    -> m.sender # m.recipient
+    [] m.type \in {"UpdateClassAdmin", "UpdateProjectAdmin"} -> m.admin # m.new_admin
+    [] m.type = "UpdateCurator"                            -> m.curator # m.new_curator
+    [] OTHER                                               -> TRUE
+
+\* the handlers work on accounts: recipient-like address fields are mapped to the account
+NormIss(is) == [i \in DOMAIN is |-> [is[i] EXCEPT !.to = Acct(@)]]
+Norm(m) ==
+  CASE m.type = "Send"                                    -> [m EXCEPT !.recipient = Acct(@)]
+    [] m.type \in {"CreateBatch", "MintBatchCredits"}      -> [m EXCEPT !.issuance = NormIss(@)]
+    [] m.type = "BridgeReceive"                            -> [m EXCEPT !.to = Acct(@)]
+    [] m.type \in {"UpdateClassAdmin", "UpdateProjectAdmin"} -> [m EXCEPT !.new_admin = Acct(@)]
+    [] m.type = "UpdateCurator"                            -> [m EXCEPT !.new_curator = Acct(@)]
+    [] OTHER                                               -> m
+
 ApplySet(s, m) ==
-  IF ~WellFormed(m) THEN {Fail(s)}
+  IF ~WellFormed(m) \/ ~RawOK(m) THEN {Fail(s)}
   ELSE IF m.type = "Take" THEN TakeResults(s, m)
-  ELSE {Apply1(s, m)}
+  ELSE {Apply1(s, Norm(m))}
 
 \* ------------------------------------------------------------------ signers
 \* the account whose signature the message requires (msg.GetSigners())
